@@ -74,6 +74,36 @@ theorem read_compacted_file {H : Type} (b : Backend H) (ref : Nat → H) (size :
   have h := Backend.getPeakFromFile_of_layout ref size hinv hclean hlay pos hpos hnc
   exact ⟨h, by rw [Backend.getFromFile_eq, h]⟩
 
+/-- **`is_pruned` is exact.** Looking only at the next root to the right (as the code does) decides
+membership in *any* pruned subtree: `is_pruned pos` iff `pos` is a pruned root or lies strictly
+inside the subtree of some pruned root. -/
+theorem is_pruned_spec (pl : PruneList) (h : pl.Inv) (pos : Nat) :
+    pl.isPruned pos = (pl.isPrunedRoot pos || compactedP pl.bitmap pos) :=
+  PruneList.isPruned_iff h pos
+
+/-- … and pruned roots themselves are never compacted away (their hash stays in the file). -/
+theorem pruned_root_kept (pl : PruneList) (h : pl.Inv) (x : Nat) (hx : x ∈ pl.bitmap) :
+    compactedP pl.bitmap (x - 1) = false := PruneList.root_not_compacted h x hx
+
+/-- **Read law for `get_from_file`**, with the code's own `is_compacted` test: under the layout
+hypothesis, every position outside the leaf set for which `is_compacted` is false (pruned roots
+included) reads the reference hash. -/
+theorem get_from_file_spec {H : Type} (b : Backend H) (ref : Nat → H) (size : Nat)
+    (hinv : b.pruneList.Inv) (hclean : b.hashFile.Clean)
+    (hlay : b.hashFile.disk = (layout b.pruneList.bitmap size).map ref)
+    (pos : Nat) (hpos : pos < size) (hl : b.leafSet.includes pos = false)
+    (hnc : b.isCompacted pos = false) : b.getFromFile pos = some (ref pos) :=
+  Backend.getFromFile_of_layout ref size hinv hclean hlay pos hpos hl hnc
+
+/-- **`unpruned_size` is the size of the unpruned reference.** `hash_size + get_total_shift`
+gives back `size` whenever the hash file holds exactly the surviving positions `< size` and all
+pruned roots are positions of that MMR – so it cannot change under compaction as long as the
+layout is maintained. -/
+theorem unpruned_size_spec {H : Type} (b : Backend H) (size : Nat) (hinv : b.pruneList.Inv)
+    (hlen : b.hashFile.disk.length = (layout b.pruneList.bitmap size).length)
+    (hroots : ∀ x ∈ b.pruneList.bitmap, x ≤ size) : b.unprunedSize = size :=
+  Backend.unprunedSize_of_layout size hinv hlen hroots
+
 /-- **Reopen is the identity on the prune list**: flushing the bitmap and `PruneList::open`ing
 it (re-append every root, rebuild both caches from scratch) yields the same list and caches. -/
 theorem prune_list_reopen (pl : PruneList) (h : pl.Inv) : PruneList.openBm pl.bitmap = pl :=
@@ -149,6 +179,24 @@ theorem compact_reopen {H : Type} (el : Bytes → Option Nat) (b : Backend H) (d
     (b.checkCompact el cutoff rm).reopen el = b.checkCompact el cutoff rm :=
   Backend.reopen_checkCompact el hc cutoff rm
 
+/-- **Compaction only selects spent leaves at or below the cutoff.** Every leaf `check_compact`
+decides to remove (`pos_to_rm`'s first component, fed to the new prune list) is a leaf position
+`≤ cutoff_pos` that is not in the leaf set (so it is spent), not in `rewind_rm_pos` (so it was
+not spent after the cutoff and no permitted rewind can bring it back) and not pruned already. -/
+theorem compaction_spares_unspent {H : Type} (b : Backend H) (cutoff : Nat) (rm : Bitmap) (x : Nat)
+    (h : x ∈ (b.posToRm cutoff rm).1) :
+    1 ≤ x ∧ x ≤ cutoff ∧ b.leafSet.includes (x - 1) = false ∧ x ∉ rm ∧
+    isLeaf (x - 1) = true ∧ b.pruneList.isPruned (x - 1) = false := by
+  obtain ⟨h1, h2, h3, h4, h5, h6⟩ := LeafSet.mem_removedPreCutoff (show x ∈
+    b.leafSet.removedPreCutoff cutoff rm b.pruneList from h)
+  refine ⟨h1, h2, ?_, h4, h5, h6⟩
+  unfold LeafSet.includes
+  have : 1 + (x - 1) = x := by omega
+  rw [this]
+  cases hc : Bm.contains b.leafSet.bitmap x with
+  | false => rfl
+  | true => exact absurd (contains_iff.1 hc) h3
+
 /- Full statement intended (DESIGN §4 C08 `compact_preserves`), NOT proved:
 
    for a synced backend `b` whose hash/data files hold the reference values of the surviving
@@ -219,6 +267,19 @@ example : plOne.Inv ∧ plOne.getShift 5 = 2 ∧ plOne.getLeafShift 5 = 2 ∧
   · rw [leaf_shift_spec _ plOne_inv]; simp [plOne, sumF, PruneList.rootLeafShift, height_two]
   · simp [plOne, compactedP, interior]
   · simp [plOne, compactedP, interior, bintreeLeftmost, height_two]
+
+-- the layout hypotheses of the read laws are satisfiable with a non-empty prune list: an MMR of
+-- size 4 whose leaves 0 and 1 were compacted keeps positions 2 and 3 in its hash file
+example : layout plOne.bitmap 4 = [2, 3] := by
+  have e : (List.range 4) = [0, 1, 2, 3] := by decide
+  simp [layout, e, plOne, compactedP, interior, bintreeLeftmost, height_two, List.filter]
+
+example : ∃ b : Backend Nat, b.pruneList.Inv ∧ b.hashFile.Clean ∧
+    b.hashFile.disk = (layout b.pruneList.bitmap 4).map (fun p => 100 + p) ∧
+    b.hashFile.disk = [102, 103] := by
+  refine ⟨{ pruneList := plOne, hashFile := AOF.ofDisk [102, 103] }, plOne_inv, AOF.ofDisk_clean _, ?_, rfl⟩
+  have e : (List.range 4) = [0, 1, 2, 3] := by decide
+  simp [layout, e, plOne, compactedP, interior, bintreeLeftmost, height_two, List.filter, AOF.ofDisk]
 
 -- appending to it keeps the invariant, and any bitmap at all yields an invariant list
 example : (plOne.append 7).Inv ∧ (PruneList.new [1, 2, 5, 8, 9]).Inv :=
